@@ -243,7 +243,22 @@ func c17Api(t *vfh.Toks, h http.Handler, e *vfobs.Enc) {
 }
 
 func c17ApiCase(t *testing.T, out *vfh.Out, c vfobs.Case) {
-	cfg, err := c.Prepare()
+	c17ApiCaseW(t, out, c, false)
+	c17ApiCaseW(t, out, c, true)
+}
+
+// c17ApiCaseW: with warm set, the handler is created — and asked once — while every interface
+// is still uninitialised, and only then are the interfaces brought to their lifecycle points (in
+// place, as the advertiser's Prepare does): the long-lived handler of the daemon must answer
+// with the state of the moment, whatever it answered before.
+func c17ApiCaseW(t *testing.T, out *vfh.Out, c vfobs.Case, warm bool) {
+	var cfg *config.Config
+	var err error
+	if warm {
+		cfg, err = vfobs.Parse(c.Doc)
+	} else {
+		cfg, err = c.Prepare()
+	}
 	if err != nil {
 		t.Fatalf("catalogue document %s rejected: %v\n%s", c.Doc.Tag, err, c.Doc.TOML)
 	}
@@ -255,6 +270,10 @@ func c17ApiCase(t *testing.T, out *vfh.Out, c vfobs.Case) {
 	st := &vfobs.State{}
 	c.Script(st, cfg, 0)
 	h := NewHandler(log.New(io.Discard, "", 0), st, *cfg, http.NotFoundHandler())
+	if warm {
+		c17Api(new(vfh.Toks), h, e) // the answer before initialisation is not judged here
+		c.Advance(cfg)
+	}
 	it := new(vfh.Toks)
 	c17Api(it, h, e)
 	out.Line(ct.String(), it.String())
